@@ -166,6 +166,13 @@ class Union(Ty):
         return self.alts[i].concrete(cx, name)
 
 
+def _bare_instance(cls):
+    try:
+        return object.__new__(cls)
+    except TypeError:          # a base class implemented in C (e.g. io.TextIOBase) has its own __new__
+        return cls.__new__(cls)
+
+
 class Inst(Ty):
     """A real instance of class ``cls`` with the given (already mangled) instance attributes."""
 
@@ -182,7 +189,7 @@ class Inst(Ty):
         elif issubclass(cls, BaseException):
             obj = cls.__new__(cls)
         else:
-            obj = object.__new__(cls)
+            obj = _bare_instance(cls)
         for k, t in self.fields.items():
             v = t.make(interp, '%s.%s' % (name, k)) if isinstance(t, Ty) else t
             object.__setattr__(obj, k, v)
@@ -197,7 +204,7 @@ class Inst(Ty):
         elif issubclass(cls, BaseException):
             obj = cls.__new__(cls)
         else:
-            obj = object.__new__(cls)
+            obj = _bare_instance(cls)
         for k, t in self.fields.items():
             v = t.concrete(cx, '%s.%s' % (name, k)) if isinstance(t, Ty) else t
             object.__setattr__(obj, k, v)
